@@ -183,6 +183,7 @@ type Method struct {
 type Service struct {
 	Name     string     `json:"name"`
 	Path     string     `json:"path,omitempty"` // HTTP base path
+	Paths    []string   `json:"paths,omitempty"` // further HTTP base paths (Path called more than once)
 	Errors   []ErrorDef `json:"errors,omitempty"`
 	HTTPErrs []Resp     `json:"http_errs,omitempty"`
 	Security *Security  `json:"security,omitempty"`
